@@ -43,6 +43,21 @@ fn spell(rng: &mut Rng, seg: &str, variant: u8) -> String {
         2 => format!("'{seg}'"),
         // long names (beyond any fixed-size prefix a hash or comparison might look at): the same
         // name every time, sharing a long prefix or a long suffix with the other names
+        // names that cannot be written bare: the quotes are part of the spelling, never of the name
+        6 => {
+            let name = match seg {
+                "a" => String::new(),
+                "b" => "b c".to_string(),
+                "c" => "é".to_string(),
+                "t" => "t.u".to_string(),
+                other => format!("{other}(x)"),
+            };
+            if rng.coin() {
+                format!("\"{name}\"")
+            } else {
+                format!("'{name}'")
+            }
+        }
         4 => format!("{}{seg}", "k".repeat(40)),
         5 => {
             let long = format!("{seg}{}", "-tail".repeat(9));
@@ -181,10 +196,11 @@ impl Check for C09 {
     }
     fn run(&mut self, ctx: &mut Ctx, workload: &str, index: u64, rng: &mut Rng) {
         // 0 bare, 1 basic, 2 literal, 3 mixed (most), 4 / 5 long names
-        let variant = match rng.below(10) {
+        let variant = match rng.below(11) {
             v @ 0..=2 => v as u8,
             8 => 4,
             9 => 5,
+            10 => 6,
             _ => 3,
         };
         let mut text = String::new();
